@@ -624,6 +624,38 @@ func (idx *Index) Update(key []byte, location types.Block) error {
 	return nil
 }
 
+// Relocate updates the file offset of a key to newLocation, but only if the
+// index still refers to oldLocation for that key. This is used when a primary
+// record is moved: if the key was updated or removed in the meantime, or the
+// moved record was already superseded, then the index must not be re-pointed
+// at the moved copy.
+func (idx *Index) Relocate(key []byte, oldLocation, newLocation types.Block) error {
+	bucket, err := idx.getBucketIndex(key)
+	if err != nil {
+		return err
+	}
+	indexKey := stripBucketPrefix(key, idx.sizeBits)
+
+	idx.bucketLk.Lock()
+	defer idx.bucketLk.Unlock()
+	records, err := idx.getRecordsFromBucket(bucket)
+	if err != nil {
+		return err
+	}
+	if records == nil {
+		return fmt.Errorf("no records found in index, unable to relocate key")
+	}
+	r := records.GetRecord(indexKey)
+	if r == nil || r.Block != oldLocation {
+		return fmt.Errorf("key to relocate is not at the expected location in index")
+	}
+	newData := records.PutKeys([]KeyPositionPair{{r.Key, newLocation}}, r.Pos, r.NextPos())
+
+	idx.outstandingWork += types.Work(len(newData) + BucketPrefixSize + sizePrefixSize)
+	idx.nextPool[bucket] = newData
+	return nil
+}
+
 // Remove removes a key from the index.
 func (idx *Index) Remove(key []byte) (bool, error) {
 	// Get record list and bucket index
